@@ -29,11 +29,17 @@ type Tracer struct {
 
 const defaultChunk = 200000
 
+// chunkFlag (-chunk) overrides the number of events per trace file
+var chunkFlag int
+
 func NewTracer(path string) *Tracer {
 	if path == "" {
 		fatal("missing -out")
 	}
 	t := &Tracer{base: path, chunk: defaultChunk, seen: map[uint64]struct{}{}}
+	if chunkFlag > 0 {
+		t.chunk = chunkFlag
+	}
 	t.open()
 	return t
 }
